@@ -517,7 +517,7 @@ def check_sabre(case) -> Outcome:
               'swaps:4-15' if inserted <= 15 else 'swaps:16+')
     if pi != ident:
         out.label('initial-mapping!=id')
-    if sorted(pf) != sorted(pi) or pf != pi:
+    if pf != pi:
         out.label('final!=initial')
     return out
 
@@ -532,19 +532,28 @@ class _PortCompiler:
     server on the one default port, so two shards could not own one each)."""
 
     def __init__(self, num_workers: int = 2) -> None:
+        import os
         import socket
         import sys
         from subprocess import Popen
         from bqskit.compiler.compiler import Compiler
 
-        def free_port() -> int:
+        def is_free(p: int) -> bool:
             s = socket.socket()
-            s.bind(('localhost', 0))
-            p = s.getsockname()[1]
-            s.close()
-            return p
+            try:
+                s.bind(('localhost', p))
+                return True
+            except OSError:
+                return False
+            finally:
+                s.close()
 
-        port, wport = free_port(), free_port()
+        # a pid-derived pair, so that concurrently starting shards do not
+        # race for the same "free" port
+        port = 20000 + 2 * (os.getpid() % 14000)
+        while not (is_free(port) and is_free(port + 1)):
+            port += 2
+        wport = port + 1
 
         class C(Compiler):
             def _start_server(self, num_workers, runtime_log_level,
@@ -558,7 +567,25 @@ class _PortCompiler:
                 )
                 self.p = Popen([sys.executable, '-c', launch])
 
-        self.compiler = C(None, port, num_workers, worker_port=wport)
+        self._make = lambda: C(None, port, num_workers, worker_port=wport)
+        self.compiler = self._make()
+
+    def compile(self, circuit, workflow, seed: int):
+        """(circuit, data); raises RuntimeError carrying the remote traceback
+        when a pass fails.  The bqskit client closes itself after any error,
+        so a fresh runtime is started for the next call."""
+        if self.compiler.conn is None:
+            self.compiler.close()
+            self.compiler = self._make()
+        try:
+            return self.compiler.compile(
+                circuit, workflow, request_data=True, data={'seed': int(seed)},
+            )
+        except RuntimeError as e:
+            if e.__cause__ is not None and \
+                    isinstance(e.__cause__, RuntimeError):
+                raise e.__cause__ from None
+            raise
 
     def close(self) -> None:
         self.compiler.close()
@@ -637,6 +664,100 @@ def _block_synthesis_error(U: np.ndarray, k: int, perm_data) -> float:
     return worst
 
 
+def _block_key(circ, params) -> tuple:
+    return (
+        tuple(
+            (_gkey(o.gate), tuple(o.location))
+            for _, o in refsim.grid_ops(circ)
+        ),
+        tuple(float(x) for x in params),
+    )
+
+
+def _pam_history(cin, res, pi, pf, cands_of, cap: int = 200000):
+    """None if a consistent history exists, 'capped' if the search was cut
+    off, else (kind of the deepest obstacle, description)."""
+    n = cin.num_qudits
+    in_ops = []
+    for c, op in refsim.grid_ops(cin):
+        in_ops.append((c, op))
+    proj = [[] for _ in range(n)]
+    for j, (_, op) in enumerate(in_ops):
+        for q in op.location:
+            proj[q].append(j)
+    out_ops = [op for _, op in refsim.grid_ops(res)]
+    best = [-1, ('final', 'no operation could be explained')]
+    nodes = [0]
+
+    class Capped(Exception):
+        pass
+
+    def note(i, kind, msg):
+        if i > best[0]:
+            best[0] = i
+            best[1] = (kind, f'output op {i}: {msg}')
+
+    def go(i, cur, ptr) -> bool:
+        nodes[0] += 1
+        if nodes[0] > cap:
+            raise Capped()
+        while i < len(out_ops) and _is_swap(out_ops[i].gate):
+            a, b = out_ops[i].location
+            cur = [b if x == a else a if x == b else x for x in cur]
+            i += 1
+        if i == len(out_ops):
+            if any(ptr[q] != len(proj[q]) for q in range(n)):
+                note(i, 'final', 'input operations missing from the output')
+                return False
+            if cur != list(pf):
+                note(i, 'final', f'logical qudits end at {cur}, recorded '
+                     f'final_mapping {list(pf)}')
+                return False
+            return True
+        op = out_ops[i]
+        P = set(op.location)
+        L = [q for q in range(n) if cur[q] in P]
+        kind = 'barrier' if _is_barrier(op.gate) else 'block'
+        pend = {proj[q][ptr[q]] if ptr[q] < len(proj[q]) else None for q in L}
+        if len(L) != len(P) or len(pend) != 1 or None in pend:
+            note(i, kind, f'{kind} at physical {sorted(P)} covers logical '
+                 f'{L} (now at {[cur[q] for q in L]}) whose next input '
+                 f'operations are {sorted(map(str, pend))}')
+            return False
+        j = pend.pop()
+        c_in, iop = in_ops[j]
+        if set(iop.location) != set(L) or \
+                _is_barrier(iop.gate) != (kind == 'barrier'):
+            note(i, kind, f'{kind} at physical {sorted(P)} holds logical {L} '
+                 f'but the next input operation there is '
+                 f'{type(iop.gate).__name__}@{tuple(iop.location)}')
+            return False
+        nptr = list(ptr)
+        for q in L:
+            nptr[q] += 1
+        if kind == 'barrier':
+            return go(i + 1, cur, nptr)
+        key = _block_key(op.gate._circuit, op.params)
+        if key not in cands_of.get((c_in, min(iop.location)), ()):
+            note(i, kind, f'block at {sorted(P)} is not a pre-synthesised '
+                 f'version of input block {tuple(iop.location)}')
+            return False
+        here = [cur[q] for q in L]
+        for perm in it.permutations(here):
+            ncur = list(cur)
+            for q, ph in zip(L, perm):
+                ncur[q] = ph
+            if go(i + 1, ncur, nptr):
+                return True
+        return False
+
+    try:
+        ok = go(0, list(pi), [0] * n)
+    except Capped:
+        return 'capped'
+    return None if ok else best[1]
+
+
 def check_pam(case) -> Outcome:
     CouplingGraph, MachineModel, PassData = _imports()
     from bqskit.passes.control.foreach import ForEachBlockPass
@@ -664,6 +785,12 @@ def check_pam(case) -> Outcome:
                  if not _is_barrier(op.gate)]
     if any(type(op.gate).__name__ != 'CircuitGate' for _, op in in_blocks):
         raise core.HarnessError('partitioner left a bare gate')
+    if any(op.num_qudits < 2 for _, op in in_blocks):
+        # EmbedAllPermutationsPass hands 1-qubit blocks to LEAP, which can
+        # raise "Cannot expand a single-qudit circuit" - a synthesis matter
+        # outside this property; the generator avoids such blocks
+        out.label('pam:1q-block(skipped)')
+        return out
     ident = list(range(n))
 
     model = MachineModel(m, CouplingGraph(sorted(edges), m))
@@ -673,9 +800,8 @@ def check_pam(case) -> Outcome:
         if comp is None:
             own = comp = _PortCompiler(2)
         try:
-            res, data = comp.compiler.compile(
-                circuit, _pam_workflow(case, model), request_data=True,
-                data={'seed': int(case['seed'])},
+            res, data = comp.compile(
+                circuit, _pam_workflow(case, model), case['seed'],
             )
         except RuntimeError as e:
             out.fail(_remote_sig('pam_workflow', str(e)), str(e)[-1500:])
@@ -701,6 +827,7 @@ def check_pam(case) -> Outcome:
                  f'{len(block_datas)} for {len(in_blocks)} blocks')
         return out
     cand_keys = set()
+    cands_of = {}          # (cycle, lowest qudit) of an input block -> keys
     budget = 0.0
     for bd in block_datas:
         pt = bd['point']
@@ -708,15 +835,11 @@ def check_pam(case) -> Outcome:
         Ub = refsim.op_matrix(op)
         pd = bd['permutation_data']
         budget += _block_synthesis_error(Ub, op.num_qudits, pd)
+        mine = cands_of.setdefault((pt.cycle, min(op.location)), set())
         for graph_data in pd.values():
             for cand in graph_data.values():
-                cand_keys.add((
-                    tuple(
-                        (_gkey(o.gate), tuple(o.location))
-                        for _, o in refsim.grid_ops(cand)
-                    ),
-                    tuple(float(x) for x in cand.params),
-                ))
+                mine.add(_block_key(cand, cand.params))
+        cand_keys |= mine
     if not budget <= 1e-2:
         out.label('pam:synthesis-missed-threshold')
         return out
@@ -735,17 +858,21 @@ def check_pam(case) -> Outcome:
             out.fail('pam_foreign_op', f'{op.gate} at {op.location}')
             continue
         n_blocks += 1
-        key = (
-            tuple(
-                (_gkey(o.gate), tuple(o.location))
-                for _, o in refsim.grid_ops(op.gate._circuit)
-            ),
-            tuple(float(x) for x in op.params),
-        )
-        if key not in cand_keys:
+        if _block_key(op.gate._circuit, op.params) not in cand_keys:
             out.fail('pam_block_not_a_candidate', f'{op.gate} at {op.location}')
     if n_blocks != len(in_blocks):
         out.fail('pam_block_count', f'{n_blocks} out for {len(in_blocks)} in')
+    if not out.violations:
+        # the output must be explainable as: the input's blocks and barriers
+        # in a dependency-respecting order, each sitting on the physical
+        # qudits that hold its logical qudits at that moment, with swaps and
+        # per-block qudit permutations moving the logical qudits in between,
+        # starting from initial_mapping and ending at final_mapping
+        why = _pam_history(cin, res, pi, pf, cands_of)
+        if why == 'capped':
+            out.label('pam:history-search-capped')
+        elif why is not None:
+            out.fail('pam_history|' + why[0], why[1])
 
     cv = _connectivity_violations(res, m, edges)
     if cv:
@@ -788,10 +915,9 @@ GRIDS = [(2, 2), (2, 3), (2, 4), (3, 3), (2, 5)]
 
 
 @st.composite
-def graph_specs(draw, n: int, max_m: int):
-    kind = draw(st.sampled_from(
-        ['line', 'ring', 'star', 'grid', 'tree', 'tree+'],
-    ))
+def graph_specs(draw, n: int, max_m: int,
+                kinds=('line', 'ring', 'star', 'grid', 'tree', 'tree+')):
+    kind = draw(st.sampled_from(list(kinds)))
     if kind == 'grid':
         dims = [d for d in GRIDS if n <= d[0] * d[1] <= max(max_m, 4)]
         if not dims:
@@ -836,8 +962,10 @@ def sabre_params():
         'dd': st.sampled_from([0.0, 0.001, 0.001, 0.05, 1.0]),
         'dri': st.sampled_from([1, 2, 5, 5, 9]),
         'drg': st.booleans(),
-        'ess': st.sampled_from([0, 1, 20, 20]),
-        'esw': st.sampled_from([0.0, 0.5, 0.5, 1.0, 3.0]),
+        'ess': st.sampled_from([0, 1, 20, 20, 20]),
+        # weights > 1 let the look-ahead dominate, which is what drives the
+        # search into the 5n-fruitless-swaps escape path
+        'esw': st.sampled_from([0.0, 0.5, 0.5, 1.0, 3.0, 3.0, 10.0]),
     })
 
 
@@ -846,12 +974,20 @@ def mapping_circuits(draw, n: int, radix: int, max_ops: int,
                      max_k: int = 3, rich: bool = True, blocks: bool = True):
     radixes = [radix] * n
     allow_swap = draw(st.integers(0, 7)) == 0
-    n_ops = draw(st.integers(1, max_ops))
+    n_ops = draw(st.integers(2, max_ops))
     ops = []
     for _ in range(n_ops):
         kind = draw(st.sampled_from(
-            ['g'] * 12 + (['barrier', 'sqblock'] if blocks else []),
+            ['g'] * 12 + (['barrier', 'sqblock'] if blocks else [])
+            + (['swap', 'swap'] if allow_swap else []),
         ))
+        if kind == 'swap':
+            ops.append({
+                'gate': {'g': 'SwapGate', 'a': [radix]},
+                'loc': list(draw(st.permutations(range(n)))[:2]),
+                'params': [],
+            })
+            continue
         if kind == 'barrier':
             loc = draw(S.locations(n, max_k=n))
             ops.append({'gate': {'g': 'Barrier', 'radixes': [radix] * len(loc)},
@@ -919,19 +1055,36 @@ PAM_GATES_2Q = ['CXGate', 'CZGate', 'CXGate', 'CZGate', 'ISwapGate',
 def pam_cases(draw):
     """Small qubit circuits from plain gates (so that LEAP reaches its
     threshold in seconds), <= 4 qubits, blocks of <= 3 qubits."""
-    n = draw(st.integers(2, 4))
-    graph = draw(graph_specs(n, 5))
+    n = draw(st.sampled_from([2, 3, 3, 4, 4, 4]))
+    # sparse machines, so that permutations or swaps are actually needed
+    graph = draw(graph_specs(
+        n, n + 1, kinds=('line', 'line', 'star', 'tree', 'ring'),
+    ))
     m = graph['m']
     edges = G.norm_edges(tuple(e) for e in graph['edges'])
     bs = 2 if n == 2 else draw(st.sampled_from([2, 2, 2, 2, 3]))
     ops = []
-    for _ in range(draw(st.integers(2, 10 if bs == 2 else 6))):
+    for _ in range(draw(st.integers(3, 12 if bs == 2 else 6))):
+        if n >= 3 and draw(st.integers(0, 7)) == 0:
+            k = draw(st.integers(1, n))
+            loc = list(draw(st.permutations(range(n)))[:k])
+            ops.append({'gate': {'g': 'Barrier', 'radixes': [2] * k},
+                        'loc': loc, 'params': []})
+            continue
         k = draw(st.sampled_from([1, 2, 2]))
         loc = list(draw(st.permutations(range(n)))[:k])
         g = {'g': draw(st.sampled_from(PAM_GATES_1Q if k == 1
                                        else PAM_GATES_2Q))}
         ops.append({'gate': g, 'loc': loc,
                     'params': draw(S.param_values(S.gate_num_params(g)))})
+    coupled = {q for o in ops if len(o['loc']) == 2
+               and o['gate']['g'] != 'Barrier' for q in o['loc']}
+    ops = [o for o in ops if o['gate']['g'] == 'Barrier'
+           or all(q in coupled for q in o['loc'])]
+    if all(o['gate']['g'] == 'Barrier' for o in ops):
+        ops = []
+    if not ops:
+        ops = [{'gate': {'g': 'CXGate'}, 'loc': [0, 1], 'params': []}]
     place = draw(st.sampled_from(['greedy', 'greedy', 'trivial']))
     if place == 'trivial' and not G.connected(m, edges, range(n)):
         place = 'greedy'
@@ -960,7 +1113,7 @@ def run_shard(ctx: core.Ctx) -> core.ShardResult:
         try:
             core.run_hypothesis(
                 ctx, res, pam_cases(), check, ctx.n(1, 19), sub=2,
-                max_shrink_sigs=1,
+                shrink=False,   # every evaluation costs seconds of synthesis
             )
         finally:
             _COMPILER = None
